@@ -392,7 +392,13 @@ class Theory:
             if seq.rule in primitive_deriv:
                 # If the method is one of the primitive derivations, obtain and
                 # apply that primitive derivation.
-                rule_fun, _ = primitive_deriv[seq.rule]
+                rule_fun, sig = primitive_deriv[seq.rule]
+                # The argument must be of the kind the rule expects. Otherwise, e.g. a Thm
+                # object given as argument of implies_elim would be used as a premise
+                # without ever having been derived.
+                if (sig is None and seq.args is not None) or \
+                   (sig is not None and not isinstance(seq.args, sig)):
+                    raise CheckProofException("invalid input to derivation " + seq.rule)
                 try:
                     res_th = rule_fun(*prev_ths) if seq.args is None else rule_fun(seq.args, *prev_ths)
                     if rpt is not None:
